@@ -215,6 +215,21 @@ CHECKS = {
         TRUSTED + "; smooth asymmetric templates on which Rot24 acts as an exact voxel permutation; tolerance 0.15 px / 0.05 deg",
         "DESIGN.md 4/C01",
     ),
+    "C10": (
+        "model_checking",
+        "spec/Sched.tla models the atomic steps (dict lookup, iterator creation, next, insert / snapshot) of the template "
+        "cache shared by concurrently running tasks; TLC explores EVERY interleaving for 2 and 3 worker threads under three "
+        "keying modes and proves NoSpuriousError, ResultsAgree and CacheBounded for the repaired design, and produces the "
+        "failing interleavings of the historical design, which are kept as regression schedules; spec/TaskOrder.tla enumerates "
+        "every start/end order of the per-molecule tasks under W workers. Conformance: every emitted schedule is replayed "
+        "deterministically on real threads calling model.align (the cache's dict operations are the yield points, CPython's "
+        "own iterator check stays real), every task order is enforced on a real loader computation, and real schedulers "
+        "(synchronous, 1-16 threads with a minimal switch interval), tomogram chunkings and numpy-vs-dask inputs are compared "
+        "bit for bit with the synchronous run; declared vs computed shapes of lazily constructed arrays are compared.",
+        "TLA+ specs Sched.tla/TaskOrder.tla model-checked by TLC; TLC-generated thread schedules and task orders replayed deterministically on the real objects",
+        TRUSTED + "; yield points cover the template cache only; memoised helper grids and the default backend are reached through real threaded runs",
+        "DESIGN.md 4/C10",
+    ),
 }
 
 REASON_TODO = "check not built yet in this round (planned: see DESIGN.md section 4)"
